@@ -128,7 +128,7 @@ def get_finite_difference_matrix(
     if type(bc_params) is not list:
         bc_params = [bc_params, bc_params]
 
-    b = np.zeros(size**dim)
+    b = np.zeros(size)
 
     if bc[0] == 'periodic':
         assert bc[1] == 'periodic'
@@ -221,17 +221,23 @@ def get_finite_difference_matrix(
                     # -- modify B
                     b[iLine] = val * b_coeff[iCoeff] / n_coeff[iCoeff] * dx
 
-    # TODO: extend the BCs to higher dimensions
+    # extend the 1D operator and the 1D boundary contributions to higher dimensions (same BCs in every direction)
     A_1d = A_1d.tocsc()
     if dim == 1:
         A = A_1d
     elif dim == 2:
         A = sp.kron(A_1d, sp.eye(size)) + sp.kron(sp.eye(size), A_1d)
+        b = np.kron(b, np.ones(size)) + np.kron(np.ones(size), b)
     elif dim == 3:
         A = (
             sp.kron(A_1d, sp.eye(size**2))
             + sp.kron(sp.eye(size**2), A_1d)
             + sp.kron(sp.kron(sp.eye(size), A_1d), sp.eye(size))
+        )
+        b = (
+            np.kron(b, np.ones(size**2))
+            + np.kron(np.ones(size**2), b)
+            + np.kron(np.kron(np.ones(size), b), np.ones(size))
         )
     else:
         raise NotImplementedError(f'Dimension {dim} not implemented.')
